@@ -16,7 +16,27 @@ const PALETTES: &[&[f32]] = &[
 ];
 
 fn gen_vec(rng: &mut Rng, dims: usize, pal: &[f32]) -> Vec<f32> {
+    if pal.is_empty() {
+        return gen_unit_vec(rng, dims);
+    }
     (0..dims).map(|_| *rng.pick(pal)).collect()
+}
+
+/// A vector of Euclidean norm exactly 1 in f32: a signed basis vector, or (+-0.5) on four
+/// coordinates.
+fn gen_unit_vec(rng: &mut Rng, dims: usize) -> Vec<f32> {
+    let mut v = vec![0.0f32; dims];
+    if dims >= 4 && rng.chance(1, 2) {
+        let mut idx: Vec<usize> = (0..dims).collect();
+        rng.shuffle(&mut idx);
+        for i in idx.into_iter().take(4) {
+            v[i] = if rng.chance(1, 2) { 0.5 } else { -0.5 };
+        }
+    } else {
+        let i = rng.usize_below(dims);
+        v[i] = if rng.chance(1, 2) { 1.0 } else { -1.0 };
+    }
+    v
 }
 
 /// Level draw: a multiple of 1/4096 in (0, 1], sometimes tiny (high level), rarely 0.0 or 1.0.
@@ -81,7 +101,10 @@ pub fn gen_case(rng: &mut Rng, tier: Tier) -> Case {
     let w_delmiss = 1;
 
     // vector pool: duplicates and ties are common when the pool is small
-    let pal = PALETTES[rng.usize_below(PALETTES.len())];
+    // cosine indexes: half of the runs keep the documented precondition "vectors are normalised"
+    // (an empty palette stands for exactly-unit-norm vectors)
+    let unit_mode = metric == "cosine" && rng.chance(1, 2);
+    let pal: &[f32] = if unit_mode { &[] } else { PALETTES[rng.usize_below(PALETTES.len())] };
     let pool_n = match rng.below(4) {
         0 => 3,
         1 => 8,
@@ -89,7 +112,7 @@ pub fn gen_case(rng: &mut Rng, tier: Tier) -> Case {
         _ => 200,
     };
     let mut pool: Vec<Vec<f32>> = (0..pool_n).map(|_| gen_vec(rng, dims, pal)).collect();
-    if rng.chance(1, 3) {
+    if rng.chance(1, 3) && !unit_mode {
         pool[0] = vec![0.0; dims];
     }
 
